@@ -144,6 +144,7 @@ SenderSend(s, a, cls) ==
   /\ LET r == [id |-> Len(sentS) + 1, src |-> s, a |-> a, sz |-> RSz(cls, as[a].key, s),
                nw |-> Len(SelectSeq(outT, LAMBDA e : e.a = a)),
                t |-> now,
+               rd |-> ReadLen(RSz(cls, as[a].key, s), as[a].key),     \* what the proxy's ReadFrom returns for it (the kernel truncates)
                fits |-> LET n == RSz(cls, as[a].key, s) IN PackFits(n, as[a].key) /\ WireToClient(n, as[a].key, s) <= MaxWire] IN     \* datagrams a target had seen from a by then
        /\ sentS' = Append(sentS, r)
        /\ inT' = [inT EXCEPT ![a] = Append(@, r)]
@@ -159,7 +160,8 @@ SenderSendMid(s, a, cls) ==
   /\ as[a].st = "used" /\ as[a].open /\ as[a].pc = "read" /\ inT[a] = <<>>
   /\ \E e \in Range(outT) : e.a = a      \* somebody has seen the association's source port (not before its first datagram)
   /\ LET r == [id |-> Len(sentS) + 1, src |-> s, a |-> a, sz |-> RSz(cls, as[a].key, s),
-               nw |-> Len(SelectSeq(outT, LAMBDA e : e.a = a)), t |-> now, fits |-> TRUE] IN
+               nw |-> Len(SelectSeq(outT, LAMBDA e : e.a = a)), t |-> now, rd |-> ReadLen(RSz(cls, as[a].key, s), as[a].key),
+               fits |-> TRUE] IN
        /\ sentS' = Append(sentS, r)
        /\ inT' = [inT EXCEPT ![a] = Append(@, r)]
        /\ tr' = Append(tr, [a |-> "TReplyMid", src |-> s, to |-> as[a].c, as |-> a, cls |-> cls])
@@ -386,7 +388,7 @@ AddOf(a) == IF Added(a) THEN CHOOSE m \in Adds : m.a = a ELSE NoAdd
 RemsOf(a) == SelectSeq(mlogG[a], LAMBDA m : m.ev = "NatRemove")
 \* (total: an observation that refers to a datagram nobody sent is judged against a dummy that satisfies nothing)
 NoDg == [id |-> 0, c |-> 0, k |-> 0, hdr |-> FALSE, dst |-> 0, sz |-> -1, wire |-> -1, t |-> 0, la |-> 0]
-NoRp == [id |-> 0, src |-> 0, a |-> 0, sz |-> -1, nw |-> 0, t |-> 0, fits |-> FALSE]
+NoRp == [id |-> 0, src |-> 0, a |-> 0, sz |-> -1, nw |-> 0, t |-> 0, rd |-> -1, fits |-> FALSE]
 Dg(id) == IF id \in 1..Len(sentC) THEN sentC[id] ELSE NoDg
 Rp(id) == IF id \in 1..Len(sentS) THEN sentS[id] ELSE NoRp
 Valid(d) == d.k \in Keys /\ d.hdr /\ d.dst \in Allowed
@@ -540,6 +542,10 @@ PktCPerDatagram == \A d \in Range(sentC) :
                            (m.c = d.c /\ (d.la = 0 \/ m.a = d.la \/ Gone(d.la)) /\ (m.st = "OK" => \E e \in Range(outT) : e.did = d.id /\ e.a = m.a))
                      /\ AtRest => /\ (Creates(d) \/ (d.la # 0 /\ ~Gone(d.la))) => NPktC(d) = 1
                                   /\ (~Creates(d) /\ d.la = 0) => NPktC(d) = 0
+\* whatever becomes of it (relayed, does not fit the pack buffer, cannot be sent to the client), the report of a datagram
+\* read from an association's socket carries the size that was read
+PktTSize == \A r \in Range(sentS) : r.a \in AIds =>
+              \A m \in Range(mlogG[r.a]) : (m.ev = "PktT" /\ m.did = r.id) => m.x = r.rd
 \* every datagram read from an association's socket is reported exactly once
 NPktT(r) == Cardinality({i \in 1..Len(mlogG[r.a]) : mlogG[r.a][i].ev = "PktT" /\ mlogG[r.a][i].did = r.id})
 PktTPerReply == \A r \in Range(sentS) :
